@@ -607,17 +607,19 @@ type fnCtx struct {
 	cloSSA    string
 
 	// generation 7 (init7.go)
-	init7     *initInfo // the function is an initialiser: the package-level variables it writes are state
-	globAddr  map[*ssa.IndexAddr]globAddrInfo
-	fresh7    *ssa.Alloc   // the struct a constructor allocates
-	freshT    *types.Named // its type
-	ctorAlias map[ssa.Value]bool // values that are the tuple of a constructed struct (results of constructor calls)
-	opaque    map[*ssa.Parameter]bool
-	gosem7    bool
-	theMap    *ssa.MakeMap
-	mapElem   string
-	mapCur    string
-	mapType   string
+	init7       *initInfo // the function is an initialiser: the package-level variables it writes are state
+	globAddr    map[*ssa.IndexAddr]globAddrInfo
+	fresh7      *ssa.Alloc         // the struct a constructor allocates
+	freshT      *types.Named       // its type
+	ctorAlias   map[ssa.Value]bool // values that are the tuple of a constructed struct (results of constructor calls)
+	opaque      map[*ssa.Parameter]bool
+	gosem7      bool
+	sprintfSkip map[ssa.Instruction]bool
+	sprintfArgs map[*ssa.Call][2]ssa.Value
+	theMap      *ssa.MakeMap
+	mapElem     string
+	mapCur      string
+	mapType     string
 
 	body *strings.Builder
 }
@@ -1730,6 +1732,14 @@ func (c *fnCtx) constant(k *ssa.Const) string {
 		return "(none : GoSem.Err)"
 	case isSliceType(t) && k.Value == nil && c.gen >= 3:
 		return "([] : " + leanType(t) + ")"
+	case isString(t) && k.Value != nil && c.gen >= 7:
+		// a string constant: the list of its bytes
+		bs := []byte(constant.StringVal(k.Value))
+		parts := make([]string, len(bs))
+		for i, b := range bs {
+			parts[i] = fmt.Sprint(b)
+		}
+		return "([" + strings.Join(parts, ", ") + "] : List Nat)"
 	case isIntType(t):
 		if k.Value == nil {
 			fail("bad integer constant")
